@@ -9,6 +9,21 @@ COMMON_ASSUMPTIONS = [
 ]
 
 PROPS = {
+    "C01": {
+        "level": "exploration",
+        "rule": "rapid draws an abstract message (Sign1 tagged/untagged incl. the Sign1()/Sign1Untagged() helpers, COSE_Sign with 1..6 signers, full and abbreviated countersignatures over Sign1/Sign/Signature/Countersignature parents as pointer and value, constructed or decoded parent, up to 3 levels; hash envelopes), headers from the data model with random Go spellings, payload/external lengths on the CBOR head boundaries, all 7 built-in algorithms with keys from drawn scalars / RSA fixtures (a fifth via COSE_Key round trip). Oracle: library Sign ok => library Verify ok in memory, after MarshalCBOR/UnmarshalCBOR (detached payload restored), for every layer, and the independent reference verifier accepts the same wire bytes. Non-trivial = signing succeeded and the wire round trip was verified; distinct by hash of the abstract case (hash envelopes: wire without signature).",
+        "parts": [
+            {"test": "TestC01_Random", "quick": 600, "thorough": 12000, "shards_quick": 6, "shards_thorough": 16},
+            {"test": "TestC01_HashEnvelope", "quick": 800, "thorough": 15000, "shards_quick": 2, "shards_thorough": 8},
+        ],
+        "required_classes": ["roundtrip/Sign1", "roundtrip/Sign1Untagged", "roundtrip/Sign", "helper", "hash-envelope", "decoded-parent",
+                             "roundtrip-detached", "key-via-COSE_Key", "protected-len/<24", "protected-len/24-255", "protected-len/>=256",
+                             "roundtrip-alg/ES256", "roundtrip-alg/ES384", "roundtrip-alg/ES512", "roundtrip-alg/EdDSA",
+                             "roundtrip-alg/PS256", "roundtrip-alg/PS384", "roundtrip-alg/PS512",
+                             "csig/Sign1/full", "csig/Sign1/abbreviated", "csig/Sign/full", "csig/Sign/abbreviated",
+                             "csig/Signature/full", "csig/Signature/abbreviated", "csig/Countersignature/full", "csig/Countersignature/abbreviated"],
+        "assumptions": COMMON_ASSUMPTIONS,
+    },
     "C07": {
         "level": "exploration",
         "rule": "rapid draws a conforming message from the data model (Sign1/untagged/Sign with 1..6 signers, 0..40 header entries, nested countersignatures single/list/abbreviated up to 3 levels, all 7 algorithms) and a peer encoder's choices (head widths, key orders, h''/h'a0'); the reference signs over the wire bytes. Non-trivial = at least one real encoder choice was made (wire differs from the deterministic encoding); distinct by hash of the wire bytes.",
